@@ -32,12 +32,11 @@ try:
             open(tmpd, "w").write(subprocess.run(["git", "-C", wt, "diff"], capture_output=True, text=True).stdout)
         shutil.copy(os.path.join(src, "demo.py"), os.path.join(dst, "demo.py"))
         caught = {}
-        for p in sorted(P.PROPS):
-            rr = subprocess.run(["/venv/bin/python", "-W", "ignore", "-m", "sa.run", p, "--repo", wt], cwd="/verif", capture_output=True, text=True)
-            if rr.returncode == 1:
-                caught[p] = sorted({l.split("[")[1].split("]")[0] for l in rr.stdout.splitlines() if l.startswith("FINDING") and "[" in l})
-            elif rr.returncode != 0:
-                caught[p] = ["ANALYSIS-ERROR"]
+        rr = subprocess.run(["/venv/bin/python", "-W", "ignore", "-m", "sa.multi", "--repo", wt], cwd="/verif", capture_output=True, text=True)
+        for l in rr.stdout.splitlines():
+            if " rc=" in l:
+                p, rc, rules = (l.split(" ", 2) + [""])[:3]
+                caught[p] = sorted(rules.split(",")) if rc == "rc=1" else ["ANALYSIS-ERROR"]
         try:
             m = json.load(open(os.path.join(src, "meta.json")))
         except Exception:
